@@ -54,6 +54,8 @@ pub enum Op {
     NCanon,
     NpnCanon,
     Successor,
+    /// formatting under a non-default format specification (index into adapter::FMT_SPECS)
+    Format(usize),
     HexRoundTrip,
     ConvRoundTrip,
     /// (LutN -> Lut ->) Lut{n2}::try_from, any n2: Err unless n2 is the table's size
@@ -145,6 +147,7 @@ pub fn writes_slot(op: &Op) -> bool {
             | Op::ToBin
             | Op::Display
             | Op::LowerHex
+            | Op::Format(_)
             | Op::Binary
             | Op::ToInt
             | Op::NumVars
@@ -338,6 +341,7 @@ fn exec_inner(fam: Fam, n: usize, slots: &[T], st: &Step) -> (Outcome, Option<T>
         Op::ToBin => (Outcome::Str(a.to_bin()), None),
         Op::Display => (Outcome::Str(a.fmt_display()), None),
         Op::LowerHex => (Outcome::Str(a.fmt_lower_hex()), None),
+        Op::Format(k) => (Outcome::Str(a.fmt_spec(*k)), None),
         Op::Binary => (Outcome::Str(a.fmt_binary()), None),
         Op::ToInt => match a.to_int() {
             Some(v) => (Outcome::Num(v), None),
@@ -473,6 +477,7 @@ pub fn arb_op(n: usize, fam: Fam, o: OpOptions) -> BoxedStrategy<Op> {
         (1, Just(Op::ToBin).boxed()),
         (1, Just(Op::Display).boxed()),
         (1, Just(Op::LowerHex).boxed()),
+        (2, (0usize..crate::adapter::FMT_SPECS.len()).prop_map(Op::Format).boxed()),
         (1, Just(Op::Binary).boxed()),
         (1, Just(Op::NumVars).boxed()),
         (1, Just(Op::NumBits).boxed()),
